@@ -61,4 +61,27 @@ def handle : List String → String
     | _, _ => "bad-op"
   | _ => "bad-op"
 
+mutual
+/-- the harness's deep encoding of a type (`encTy` in go/corr/sema.go) -/
+partial def encTy : Ty → String
+  | .any => "any" | .null => "null" | .number => "number" | .bool => "bool" | .string => "string"
+  | .arr e d => s!"(arr,{encTy e},{if d then 1 else 0})"
+  | .obj ps m =>
+    let m' := match m with | none => "N" | some t => encTy t
+    s!"(obj,({",".intercalate (ps.map fun kv => s!"({hexStr kv.1},{encTy kv.2})")}),{m'})"
+end
+
+/-- `tyop merge|assign|str <t1> <t2>`: the operations of expr_type.go on two encoded types -/
+def handleTyOp : List String → String
+  | [op, a, b] =>
+    match readSExp a >>= tyOf, readSExp b >>= tyOf with
+    | some t1, some t2 =>
+      match op with
+      | "merge" => encTy (Ty.merge t1 t2)
+      | "assign" => if Ty.assignable t1 t2 then "1" else "0"
+      | "str" => hexStr (tyStr t1)
+      | _ => "bad-op"
+    | _, _ => "bad-op"
+  | _ => "bad-op"
+
 end Driver.SemaD
